@@ -242,10 +242,14 @@ func snRun(in *snInput, sink *CaseSink, fixedModel bool) {
 			}
 		}
 	}
-	db.GC()
+	// "the collector can make progress on all later snapshots": no GC() is forced — one more snapshot
+	// is created and closed by this (now the only) goroutine; its Close must sweep everything retired
+	if last, err := db.NewSnapshot(); err == nil {
+		last.Close()
+	}
 	if bad == "" && sch.AllFinished() {
-		if int(db.GetLastGCSn()) != in.N {
-			bad = fmt.Sprintf("after every handle was closed and GC() ran, lastGCSn=%d but %d snapshots were created: the collector cannot make progress", db.GetLastGCSn(), in.N)
+		if int(db.GetLastGCSn()) != in.N+1 {
+			bad = fmt.Sprintf("after every handle was closed, one more snapshot was created and closed without contention: lastGCSn=%d but %d snapshots were created: the collector does not make progress on later snapshots", db.GetLastGCSn(), in.N+1)
 			sig = "c08-collector-stuck"
 		} else if len(db.GetSnapshots()) != 0 {
 			bad = "a fully released snapshot is still in the live snapshot set"
